@@ -161,6 +161,17 @@ def oracle(stream, cid, ops, outs):
             bad = [x for x in log.get((p, "s2c"), []) if x["kind"] == "synack" and int(x["f"][1]) == nonce]
             if bad:
                 fails.append({"oracle": "refusal", "detail": "SYN with version %s from peer %d was answered with a SYN-ACK" % (d["f"][1], p), "signature": {"oracle": "refusal"}})
+    # --- an established connection is not reset by a handshake error frame (stale, duplicated or forged): the handshake error kinds
+    #     are reported only for a handshake that did not complete
+    for i, evs in cev.items():
+        seen_c = False
+        for (t, tag, extra) in evs:
+            if tag == "C":
+                seen_c = True
+            elif tag == "E" and seen_c and extra in ("ServerFull", "Version", "Config"):
+                fails.append({"oracle": "established_not_reset", "detail": "client %s reported Error(%s) at %d ms after it had reported Connect: a handshake error frame reset an established connection" %
+                              (i, extra, t // 10**6), "signature": {"oracle": "established_not_reset", "side": "client"}})
+                break
     # --- event grammar
     for i, evs in cev.items():
         m = c08.monitor([(t, tag) for (t, tag, _) in evs], "client %d" % i)
